@@ -13,7 +13,8 @@ CLAIMED = {
                 technique="deterministic simulation: seeded API histories with injected faults, checked op by op against an executable reference model (the canonical history)",
                 text="Seeded interleaved API histories over a pool of generator instances and caller-owned event objects (fresh, reused, pre-filled, shrunk, copied), with cancellation, "
                      "allocation-failure and steering faults attached to operations; every successful shot is compared field by field with the canonical history for the same "
-                     "(configuration, deviate stream). Violations are shrunk and replayed in a fresh process before being reported.",
+                     "(configuration, deviate stream); objects are also re-configured in place after a rejected initialise, and post-generation operation objects are caller-owned and shared between generators. "
+                     "Violations are shrunk and replayed in a fresh process (with the worker's history as a prelude when process-wide state is involved) before being reported.",
                 note="Trusted: the reference is the SUT itself in the canonical history (fresh instance, fresh event), so a defect that affects every history identically is invisible here (C01/C02 territory)."),
     "C08": dict(level="exploration", ref="DESIGN.md section 3 (C08)",
                 technique="deterministic simulation of the C07/C04 plan space in the ASan+UBSan+_GLIBCXX_ASSERTIONS flavour; a sanitizer report is the violation",
@@ -24,7 +25,9 @@ CLAIMED = {
                 technique="deterministic simulation: seeded API call sequences with injected initialise failures (I/O faults on gA data, cancellation, allocation failure), checked call by call against an executable reference state machine",
                 text="Seeded client sessions of public API calls on a generator (plus a bystander instance), every call checked against a small executable protocol model: which calls must be refused, "
                      "what every getter reports after every call, that a failed initialise (invalid configuration, absent or torn gA dataset on the simulated disk, EIO, cancellation inside initialise, "
-                     "allocation failure) leaves the instance un-initialised and as usable as a pristine one, and that after reset the instance reports defaults and yields the events of a fresh instance.",
+                     "allocation failure) leaves the instance un-initialised and as usable as a pristine one, and that after reset the instance reports defaults and yields the events of a fresh instance. "
+                     "Two further batches: every call sequence of length <= 4 (thorough: <= 5) over a 15-call alphabet is enumerated once; and, in freshly forked processes, the first use of the lazily "
+                     "loaded catalogue lists happens under an open/read fault, after which the same object and a brand-new one must initialise and agree.",
                 note="Acceptance of a configuration is not re-derived (that frontier is C06): the model asks a pristine instance in the same durable environment. is_debug() and has_decay_version() after an "
                      "initialise attempt are deliberately not asserted; reset() of a never-initialised generator keeps its configuration by design and is only counted. Sampling, not the exhaustive enumeration the property's quantifier text mentions."),
     "C11": dict(level="exploration", ref="DESIGN.md section 3 (C11)", replay_flavour="asan",
@@ -38,20 +41,23 @@ CLAIMED = {
                 technique="deterministic simulation with storage-fault injection: valid files from the real writers are torn, flipped, zeroed, dropped or duplicated on a simulated disk (plus in-flight EIO/short reads), then loaded and used under ASan/UBSan with allocation and read-call accounting",
                 text="Each run damages a valid, writer-produced file on the simulated disk with 1-2 storage faults and hands it to the loader, then uses what was loaded. Oracle: an exception, or a load "
                      "whose results satisfy the loader's own predicate (event::is_valid), and always no signal, no sanitizer report, bounded read calls and bounded allocation. The thorough tier "
-                     "enumerates every truncation offset of the sample event file and gA tables; the other fault kinds are seeded samples.",
+                     "enumerates every truncation offset of the sample event file and gA tables; the other fault kinds (flip, overwrite, zeroed/dropped/duplicated block or line, stale-tail splice, empty) are seeded samples; "
+                     "gA objects are re-loaded after a rejected table and must then behave like pristine ones.",
                 note="Not grammar-based fuzzing of arbitrary byte strings: only the storage-fault vocabulary over valid files (said in DESIGN.md). The fourth anchor (command-line parser) has no file; malformed command lines are exercised by C13."),
     "C13": dict(level="fault_enumeration", ref="DESIGN.md section 3 (C13)", replay_flavour="asan",
                 technique="deterministic simulation: the program's real main() in-process over a simulated file system and clock; every kill point of every run enumerated as a snapshot after each write(2) and inside writes; write-fault injection; reference model written against the public API",
                 text="The real bxdecay0-run main(), parser and driver run in-process with argv from a seeded plan, output on the simulated disk and time() simulated. Checked: byte equality of the event file "
                      "with a reference written against the public API; byte-identical reruns under another epoch and write chunking; companion key/values; at every kill point of every run (after each "
-                     "write and at seeded offsets inside each) that the completion marker implies a complete event file; the same implication under ENOSPC/EIO; refused lines leave no event record; no crash, "
+                     "write, at seeded offsets inside each, and at the truncation of an existing file) that the completion marker implies a complete event file - also when the basename already holds the files of an "
+                     "earlier complete run; the same implication under ENOSPC/EIO/open failures; refused lines (incl. near-miss spellings of every option) leave no event record; no crash, "
                      "sanitizer report or libstdc++ assertion.",
                 note="Kill points are enumerated exhaustively per explored run (fault_enumeration); the command-line space is sampled. fsync/rename-style durability is out of scope: the program does not use them and the property does not ask."),
     "C12": dict(level="exploration", ref="DESIGN.md section 3 (C12)", replay_flavour="asan",
                 technique="deterministic simulation of thread schedules: real threads parked on futexes and released one at a time by a seeded scheduler at intercepted GSL/mutex/deviate points, injected quadrature tolerance misses, history checked by vector-clock race detection, solo-run equivalence and a TSan-invisible hand-off that lets ThreadSanitizer report logical races",
                 text="2-3 clients with their own generators run on real threads whose interleaving is decided by the plan (preemptions biased into the GSL error-handler save/disable..restore window), "
                      "with real and injected quadrature tolerance misses. Checked on the recorded history: the application's base GSL handler is never invoked during a quadrature (no schedule-dependent abort), "
-                     "each client's events equal its solo run bit for bit, no happens-before race on the process-wide handler, no ThreadSanitizer report in the tsan flavour, no deadlock. Every violation replays from its plan.",
+                     "each client's events equal its solo run bit for bit, no happens-before race on the process-wide handler, no ThreadSanitizer report in the tsan flavour, no deadlock. Two of the four batches run every "
+                     "plan in a freshly forked process with the tasks' reads as extra schedule points and __cxa_guard modelled as a lock, so that first use of lazily initialised statics happens under preemption. Every violation replays from its plan.",
                 note="Schedules are sampled; schedule points are the intercepted GSL, pthread-mutex and deviate calls. TSan cannot see inside libgsl: the handler variable is shadowed. A blocking primitive other than a pthread mutex would show as a harness stall (exit 2)."),
 }
 
